@@ -117,6 +117,10 @@ func init() {
 		fr.e.sched.noTimers = true
 		return nil
 	})
+	reg(rt+"TimersFireTogether", func(fr *frame, args []Value) Value {
+		fr.e.sched.timersTogether = fr.e.branch(args[0].(*Term))
+		return nil
+	})
 	reg(rt+"AnyMapOrder", func(fr *frame, args []Value) Value {
 		fr.e.mapOrderAny = fr.e.branch(args[0].(*Term))
 		return nil
